@@ -381,7 +381,7 @@ def _no_subnormal_gaps(x):
     return out
 
 
-def pwc_func(rng, ts, te, grid, shared=None, int_valued=False, dyadic=True):
+def pwc_func(rng, ts, te, grid, shared=None, int_valued=False, dyadic=True, wild=False):
     x = rand_breaks(rng, ts, te, grid, dyadic=dyadic)
     if shared and rng.random() < 0.4:
         pick = rng.sample(shared, min(len(shared), rng.randint(1, 3)))
@@ -393,7 +393,7 @@ def pwc_func(rng, ts, te, grid, shared=None, int_valued=False, dyadic=True):
         x = _no_subnormal_gaps([ts] + inner + [te])
     if int_valued:
         y = [rng.randint(0, 5) for _ in range(len(x) - 1)]
-    elif rng.random() < 0.05:
+    elif wild and rng.random() < 0.05:
         # a large dynamic range inside one function (counts next to rates, an outlier piece): every piece of a sum is
         # still the rounded sum of the operands' values on that piece
         y = [rng.choice(WILD) for _ in range(len(x) - 1)]
@@ -432,7 +432,7 @@ def disc_func(rng, ts, te, grid, shared=None, base_mp=1):
     return {"x": [ts, te], "y": [float(base_mp), float(base_mp)], "mp": [float(base_mp), float(base_mp)]}
 
 
-def history(rng, kind, tier):
+def history(rng, kind, tier, wild=False):
     """random operation sequence over a pool of functions of one kind ('pwc' | 'pwl' | 'disc')"""
     ts, te, grid = func_setting(rng)
     dyadic = rng.random() < 0.8
@@ -442,7 +442,7 @@ def history(rng, kind, tier):
     int_valued = (kind in ("pwc", "pwl") and rng.random() < 0.15)
     for _ in range(nf):
         if kind == "pwc":
-            f = pwc_func(rng, ts, te, grid, shared, int_valued=int_valued, dyadic=dyadic)
+            f = pwc_func(rng, ts, te, grid, shared, int_valued=int_valued, dyadic=dyadic, wild=wild)
         elif kind == "pwl":
             f = pwl_func(rng, ts, te, grid, shared, dyadic=dyadic, int_valued=int_valued)
         else:
